@@ -178,4 +178,14 @@ PROPS = {
                "In-process generated search (no coverage guidance in the registered tiers); each case runs on a fresh thread; an abort of the worker process is reported as a violation with the case in flight as replay.",
                "cases = (expected type, byte generator, 0..8 attachments, receive path); non-trivial = the decoded value handed out at least one endpoint, or the bytes are a structured mutation of a valid encoding, or the message was dropped undecoded with >=1 attachment; distinct = distinct (build, canonical JSON)"),
     ),
+    "C05": dict(
+        jobs=lambda tier: [dict(build=b, params={"cases": "3000" if tier == "quick" else "40000"}, shards=4 if tier == "quick" else 8) for b in ("os", "memfd", "inproc")]
+        + ([dict(build=b, params={"cases": "60", "big": "1", "max_exp": "25"}, shards=2) for b in ("os", "memfd")] if tier == "thorough" else []),
+        meta=M("exploration",
+               "property-based round-trip testing of shared-memory regions (enumerated boundary lengths + generated lengths/contents/clone patterns), receivers in the same and in a forked process",
+               "Regions are created from seeded byte strings or from a fill byte for lengths enumerated around 0, 1, page +/-1, 2 pages +/-1 and generated up to the tier maximum, cloned 0..3 times (a clone or the original is what gets sent), 1..8 per message in generated order mixed with data, received in the same process or in a forked child that never held the sender's handles; contents and lengths are compared at creation, in every clone, after receipt, after the sender's copies and the carrying channel were dropped, and after a second hop; order is preserved.",
+               "Comparison is byte-for-byte (checksums only in reports). The forked receiver reports over a pipe.",
+               "cases = (1..8 regions each with length, contents, clone count, which copy is sent; padding; receiver process; second hop); non-trivial = some length is not a multiple of the page size, or >=2 regions, or a clone was sent; distinct = distinct (build, canonical JSON)",
+               exhaustive="lengths {0,1,2,page-1,page,page+1,2page-1,2page,2page+1,3page+7} x {stream, fill 0, fill 0xA5} x {same process, forked receiver}"),
+    ),
 }
